@@ -25,6 +25,12 @@ RULE = (
     "stack_adjustment equals the real displacement; aligned body stack with "
     "align_stack. non-trivial = prologue+epilogue executed; distinct = "
     "(abi, |clobbers|, flags, align, caller, scratch, reads, leaf)."
+    " One case in eight goes through PassManager/RewritingContext on"
+    " x86-64 ELF (leaf, syscall-only, calling, function-less code, a"
+    " leaf that received a call in an earlier run of the same manager;"
+    " patch objects made by subclassing or Patch.from_function with"
+    " decorator/explicit constraints): the inserted bytes are executed"
+    " with the red zone armed and every register compared."
 )
 ASSUMPTIONS = [
     "flags clobbered by the prologue itself when the patch did not declare flags are only counted (outside the statement)",
